@@ -156,6 +156,7 @@ class SuperProxy:
 class IdxArr:
     """A static-shape integer index array (input `indices`, arange, setxor1d result, constant list)."""
 
+    distinct = False  # a generic index list without repeated entries (one-hot rows select different positions)
     mesh = None      # (position, rank) when the index array was reshaped to broadcast as one axis of an open mesh (idx[:, None], idx[None, :])
 
     def __init__(s, name, size, kind="generic", lo=None, values=None, inverse=False, parts=None):
